@@ -14,7 +14,7 @@ import torch
 from harness import wave_common as W
 
 PROPS = ['C03_linear', 'C03_zero_to_zero', 'C03_linear_numpy_fresnel', 'C03_linear_numpy_impulse_response',
-         'C03_linear_fraunhofer', 'C03_shift_equivariant', 'C03_upsample_linear', 'C03_upsample_zero']
+         'C03_linear_fraunhofer', 'C03_shift_equivariant', 'C03_upsample_linear', 'C03_upsample_zero', 'C03_shift_equivariant_numpy_fresnel']
 T_METHODS = ['Angular Spectrum', 'Bandlimited Angular Spectrum', 'Transfer Function Fresnel', 'Impulse Response Fresnel',
              'Seperable Impulse Response Fresnel', 'Incoherent Angular Spectrum', 'custom', 'Fraunhofer']
 N_METHODS = ['Angular Spectrum', 'Bandlimited Angular Spectrum', 'Transfer Function Fresnel', 'Impulse Response Fresnel', 'Fraunhofer', 'Fraunhofer Inverse',
